@@ -11,6 +11,8 @@ package main
 //   - (*BoardID_t).IsValid: the length bounds, the start of the loop, the index expression of the byte read
 //     inside the loop classified as "b[idx]" (the loop variable) / "b[0]" (a constant) / "other", and the
 //     extra characters the tested byte is compared with (`ch != '<c>'` or `ch == '<c>'`);
+//   - ptt.NewBoard: whether it refuses (ErrInvalidBid) a parent that is vacated or not a group board before
+//     groupOp ("vacatedOrNonGroup" / "none" / "other");
 //   - the calls of ptt.NewBoard, ptt.mNewbrd and ptt.addBoardRecord in source order (which check precedes
 //     which side effect is a fact of the source).
 
@@ -220,7 +222,72 @@ func init() {
 
 		lf.raw("\n/- ptt.mNewbrd, ptt.NewBoard: calls in source order -/\n")
 		lf.raw("def mNewbrdCalls : List String := " + leanStrList(nbCalls(pp, nbFunc(pp, "", "mNewbrd"))) + "\n")
-		lf.raw("def newBoardCalls : List String := " + leanStrList(nbCalls(pp, nbFunc(pp, "", "NewBoard"))) + "\n")
+		nbFn := nbFunc(pp, "", "NewBoard")
+		lf.raw("def newBoardCalls : List String := " + leanStrList(nbCalls(pp, nbFn)) + "\n")
+		// the parent test of NewBoard: an `if` before the groupOp call that returns an error and whose condition
+		// looks at the parent's Brdname and at BRD_GROUPBOARD
+		parentCheck := "none"
+		var groupOpPos token.Pos
+		ast.Inspect(nbFn.Body, func(n ast.Node) bool {
+			if call, ok := n.(*ast.CallExpr); ok && nbCallName(call) == "groupOp" && groupOpPos == 0 {
+				groupOpPos = call.Pos()
+			}
+			return true
+		})
+		for _, st := range nbFn.Body.List {
+			is, ok := st.(*ast.IfStmt)
+			if !ok || (groupOpPos != 0 && is.Pos() > groupOpPos) {
+				continue
+			}
+			hasName, hasGroup := false, false
+			ast.Inspect(is.Cond, func(n ast.Node) bool {
+				switch e := n.(type) {
+				case *ast.SelectorExpr:
+					if e.Sel.Name == "Brdname" {
+						hasName = true
+					}
+					if e.Sel.Name == "BRD_GROUPBOARD" {
+						hasGroup = true
+					}
+				}
+				return true
+			})
+			if hasName || hasGroup {
+				parentCheck = "other"
+				if hasName && hasGroup && len(is.Body.List) > 0 {
+					if ret, ok := is.Body.List[len(is.Body.List)-1].(*ast.ReturnStmt); ok && strings.Contains(types.ExprString(ret.Results[len(ret.Results)-1]), "ErrInvalidBid") {
+						parentCheck = "vacatedOrNonGroup"
+					}
+				}
+			}
+		}
+		lf.raw(fmt.Sprintf("def parentCheck : String := %q\n", parentCheck))
+
+		// ---- ptt.InitCurrentUser: the level a user record is given for the two special ids ---------------
+		lf.raw("\n/- ptt.InitCurrentUser (pwcuInitAdminPerm / pwcuInitGuestPerm): the constant assigned to UserLevel -/\n")
+		for _, v := range []struct{ def, fn string }{{"adminLevel", "pwcuInitAdminPerm"}, {"guestLevel", "pwcuInitGuestPerm"}} {
+			fd := nbFunc(pp, "", v.fn)
+			val := ""
+			ast.Inspect(fd.Body, func(n ast.Node) bool {
+				as, ok := n.(*ast.AssignStmt)
+				if !ok || len(as.Lhs) != 1 || len(as.Rhs) != 1 || val != "" {
+					return true
+				}
+				if sel, ok := as.Lhs[0].(*ast.SelectorExpr); ok && sel.Sel.Name == "UserLevel" {
+					if tv, ok := pp.TypesInfo.Types[as.Rhs[0]]; ok && tv.Value != nil {
+						val = constant.ToInt(tv.Value).ExactString()
+					}
+				}
+				return true
+			})
+			if val == "" {
+				fatal("ptt.%s: no constant assignment to UserLevel", v.fn)
+			}
+			lf.nat(v.def, val)
+		}
+		lf.raw("def strGuest : List Nat := [" + strings.Join(bytesOf(constString(pts, "STR_GUEST")), ", ") + "]\n")
+		sys, _ := litInts(pts, varInit(pts, "STR_SYSOP"))
+		lf.raw("def strSysop : List Nat := [" + strings.Join(sys, ", ") + "]\n")
 
 		// ---- (*BoardID_t).IsValid ----------------------------------------------------------------
 		lf.raw("\n/- ptttype.(*BoardID_t).IsValid -/\n")
